@@ -109,11 +109,14 @@ def check_case(case):
         v.append(("feasible", d))
     # extra arguments passed through unchanged on every call
     log = ex.reg["log"]
-    want = (case["lam"],) if case["conv"] == "args" else ()
-    bad_h = [a for a in log["h"] if a != want]
-    bad_p = [a for a in log["prox"] if a != want]
-    if bad_h or bad_p:
-        v.append(("args_passthrough", "h/prox received extra arguments %s, expected %s on every call" % ((bad_h or bad_p)[0], want)))
+    want_h = (case["lam"], "for-h") if case["conv"] == "args" else ()
+    want_p = ("for-prox", case["lam"], 3) if case["conv"] == "args" else ()
+    bad_h = [a for a in log["h"] if a != want_h]
+    bad_p = [a for a in log["prox"] if a != want_p]
+    if bad_h:
+        v.append(("args_passthrough", "h received extra arguments %s on %d of %d calls, expected %s on every call" % (bad_h[0], len(bad_h), len(log["h"]), want_h)))
+    if bad_p:
+        v.append(("args_passthrough", "prox received extra arguments %s on %d of %d calls, expected %s on every call" % (bad_p[0], len(bad_p), len(log["prox"]), want_p)))
     if not log["h"] or not log["prox"]:
         v.append(("args_passthrough", "h (%d calls) or prox (%d calls) never called" % (len(log["h"]), len(log["prox"]))))
     if s.flag != mon.SUCCESS:
